@@ -2,19 +2,21 @@
 # usage: verify_seed.sh <name> <patch.diff> <demo.rs> [cargo test extra args for the demo, e.g. "--features env"]
 # Verifies in a scratch worktree of /repo: demo passes unpatched, fails patched, full baseline passes patched.
 set -u
+# env: DEMO_PKG (default clap), DEMO_DIR (default tests; relative to the worktree, e.g. clap_lex/tests)
 name=$1; patch=$(readlink -f $2); demo=$(readlink -f $3); extra=${4:-}
+pkg=${DEMO_PKG:-clap}; ddir=${DEMO_DIR:-tests}
 wt=/tmp/wtv/$name
 rm -rf $wt; mkdir -p /tmp/wtv
 git -C /repo worktree add --detach $wt HEAD >/dev/null 2>&1 || { echo "worktree failed"; exit 2; }
-cp $demo $wt/tests/seed_demo.rs
+cp $demo $wt/$ddir/seed_demo.rs
 cd $wt
 echo "== demo on unmodified tree"
-CARGO_NET_OFFLINE=true cargo test --offline -p clap --test seed_demo $extra 2>&1 | grep -E "^test result|error(\[|:)" | head -5
+CARGO_NET_OFFLINE=true cargo test --offline -p $pkg --test seed_demo $extra 2>&1 | grep -E "^test result|error(\[|:)" | head -5
 if ! git apply $patch; then echo "PATCH DOES NOT APPLY"; cd /; git -C /repo worktree remove --force $wt; exit 2; fi
 echo "== demo with the change"
-CARGO_NET_OFFLINE=true cargo test --offline -p clap --test seed_demo $extra 2>&1 | grep -E "^test result|error(\[|:)" | head -5
+CARGO_NET_OFFLINE=true cargo test --offline -p $pkg --test seed_demo $extra 2>&1 | grep -E "^test result|error(\[|:)" | head -5
 echo "== baseline with the change (demo file removed)"
-rm -f tests/seed_demo.rs
+rm -f $ddir/seed_demo.rs
 CARGO_NET_OFFLINE=true cargo nextest run --workspace --no-fail-fast --tool-config-file pb:/w/lib/nextest.toml --profile pb --test-threads 16 --offline 2>&1 | grep -E "Summary|FAIL|error(\[|:)" | head -10
 cd /
 git -C /repo worktree remove --force $wt
